@@ -12,6 +12,7 @@ by TLC (spec/Trace_C03.tla) with the same Eval.
 import json
 import random
 import sys
+import time
 
 import glom
 from glom import T, Spec, Val, Coalesce, Call, Invoke, Ref, Pipe, Fill, Auto, GlomError
@@ -84,6 +85,10 @@ def mk_fns(log):
 
 
 # ---- abstract spec -> real glom spec ----------------------------------------------------------
+class Unconstructible(Exception):
+    """the abstract tree denotes no glom spec (the constructor refuses it)"""
+
+
 def build(ast, heap):
     op = ast['op']
     b = lambda a: build(a, heap)
@@ -149,9 +154,12 @@ def build(ast, heap):
                                     **{k['s']: heap.val(v) for k, v in c['kw']})
             elif c['c'] == 'S':
                 inv = inv.specs(*[b(a) for a in c['args']], **{k['s']: b(v) for k, v in c['kw']})
-            else:
-                inv = inv.star(args=b(c['args'][0]) if c['args'] else None,
-                               kwargs=b(c['kw'][0]) if c['kw'] else None)
+            else:                      # (a literal None means "not given", as in the model)
+                a = b(c['args'][0]) if c['args'] else None
+                k = b(c['kw'][0]) if c['kw'] else None
+                if a is None and k is None:
+                    raise Unconstructible('star() without args and kwargs')
+                inv = inv.star(args=a, kwargs=k)
         return inv
     raise vlib.MachineryError('unknown spec op %r' % (op,))
 
@@ -198,36 +206,49 @@ TARGET_HEAP = None
 
 
 def worker(states):
-    out = dict(cases=0, skipped={}, nontrivial=0, ok=0, bad=[], samples=[], outcomes={})
+    res = dict(fams={}, bad=[], samples=[])
     for st in states:
         if st.get('phase') != 1:
             continue
+        out = res['fams'].setdefault(st['fam'], dict(cases=0, skipped={}, nontrivial=0, ok=0, outcomes={}))
         pred, ast, root = st['pred'], st['stack'][0]['s'], st['root']
         if pred['skip']:
             out['skipped'][pred['skip']] = out['skipped'].get(pred['skip'], 0) + 1
+            continue
+        try:
+            obs = observe(TARGET_HEAP, root, ast)
+        except Unconstructible:
+            out['skipped']['unconstructible'] = out['skipped'].get('unconstructible', 0) + 1
             continue
         out['cases'] += 1
         if nontrivial(ast):
             out['nontrivial'] += 1
         key = 'ok' if pred['ok'] else pred['exc']
         out['outcomes'][key] = out['outcomes'].get(key, 0) + 1
-        obs = observe(TARGET_HEAP, root, ast)
         why = 'model says terminating, library hit RecursionError' if obs['skip'] else compare(pred, obs)
         if why:
-            out['bad'].append(dict(why=why, case=dict(heap=TARGET_HEAP, root=root, spec=ast, pred=pred, obs=obs)))
+            res['bad'].append(dict(why=why, case=dict(universe=st['fam'], heap=TARGET_HEAP, root=root, spec=ast,
+                                                      pred=pred, obs=obs)))
         else:
             out['ok'] += 1
-            if len(out['samples']) < 1 and pred['ok'] and pred['log'] and pred['cells'] and c03_gen.depth(ast) >= 3:
-                out['samples'].append(dict(root=root, spec=ast, pred=pred))
-    return out
+            if len(res['samples']) < 1 and pred['ok'] and pred['log'] and pred['cells'] and c03_gen.depth(ast) >= 3:
+                res['samples'].append(dict(universe=st['fam'], root=root, spec=ast, shown=c03_gen.show(ast), pred=pred))
+    return res
 
 
 # ---- code -> spec --------------------------------------------------------------------------------
-def record(check, n, seed, corrupt=False):
+def record(check, n, seed):
+    import signal
+
+    def stuck(*_):
+        raise vlib.MachineryError('a generated spec ran for more than 20 s: %s' % c03_gen.show(ast))
     rng = random.Random(seed)
     rows = []
     guide_fail = 0
+    ast = None
+    signal.signal(signal.SIGALRM, stuck)
     while len(rows) < n:
+        signal.alarm(20)
         cells, root = c03_gen.rand_target(rng)
         gen = c03_gen.Gen(rng, cells, lambda ast, tgt_obj, heap: glom.glom(tgt_obj, build(ast, heap)), mk_fns)
         ast = gen.spec(root, rng.randint(2, 5))
@@ -237,20 +258,18 @@ def record(check, n, seed, corrupt=False):
             continue
         obs.pop('skip')
         rows.append(dict(heap=cells, root=root, spec=ast, obs=obs))
-    if corrupt:
-        return rows
+    signal.alarm(0)
     rejects = vlib.validate_rows(check, 'Trace_C03', rows, 'random-specs')
     skipped = 0
     for row, rej in rejects:
         if rej['clause'].startswith('skip:'):
-            skipped += 1
-            check.cov['traces_validated_against_impl'] += 0
+            skipped += 1          # outside the modelled fragment: not judged (and not counted as validated)
             continue
         check.violation(dict(row=row, clause=rej['clause']),
                         'recorded execution rejected by the specification: clause %s' % rej['clause'],
                         matcher=match_finding)
-    # validate_rows counted skipped rows as not validated already (they were "rejected")
     check.extra['recorded_rows'] = len(rows)
+    check.extra['recorded_rows_dropped_recursion_limit'] = guide_fail
     check.extra['recorded_rows_outside_fragment'] = skipped
     check.extra['recorded_depth_histogram'] = c03_gen.histogram(c03_gen.depth(r['spec']) for r in rows)
     check.extra['recorded_outcomes'] = c03_gen.histogram(('ok' if r['obs']['ok'] else r['obs']['exc']) for r in rows)
@@ -275,94 +294,92 @@ def match_finding(f, case):
     return False
 
 
-# ---- configurations --------------------------------------------------------------------------------
-def K(*names):
+# ---- universes (defined in spec/MC_C03.tla, operator Conf) ------------------------------------------
+FAMILIES = {
+    'quick': ['q_nest', 'q_pairs', 'q_leaves', 'q_coal1', 'q_coal2', 'q_calls', 'q_modes'],
+    'thorough': ['t_nest', 't_nest5', 't_leaves', 't_coal', 't_calls', 't_callnest', 't_modes'],
+}
+# wrong mechanism variants (GlomAuto env.mut) and the small universe on which TLC must report
+# the law violated
+MUTANTS = [('tuple_skip_breaks', 'm_chain'), ('coalesce_eager', 'm_coal'), ('dict_stop_skips', 'm_dict'),
+           ('invoke_first', 'm_invoke')]
+
+
+def tla_set(names):
     return '{%s}' % ', '.join('"%s"' % n for n in names)
 
 
-def R(*idx):
-    return '{%s}' % ', '.join(str(i) for i in idx)
-
-
-def cfg(kinds, leaf, coal, depth, nodes, width, stack, roots, mutant='none'):
-    return dict(Kinds=kinds, LeafSet='"%s"' % leaf, CoalSet='"%s"' % coal, MaxDepth=depth, MaxNodes=nodes,
-                MaxWidth=width, MaxStack=stack, Roots=roots, Mutant='"%s"' % mutant)
-
-
-CONTAINERS = ('dict', 'dictk', 'list', 'tuple', 'pipe', 'spec', 'coalesce')
-CONFIGS = {
-    'quick': [
-        ('containers', cfg(K(*CONTAINERS), 'small', 'basic', 3, 4, 2, 3, R(1, 2, 3))),
-        ('leaves', cfg(K(*CONTAINERS), 'full', 'basic', 2, 3, 2, 2, R(1, 2, 3, 5, 6, 7))),
-        ('coalesce', cfg(K('coalesce'), 'small', 'full', 2, 3, 2, 2, R(1, 3))),
-        ('calls', cfg(K('call', 'invoke'), 'arg', 'basic', 2, 5, 2, 2, R(1, 3))),
-        ('modes', cfg(K('ref', 'fill', 'auto', 'dict', 'list', 'tuple', 'coalesce'), 'small', 'basic', 3, 4, 2, 2, R(1, 2))),
-    ],
-    'thorough': [
-        ('containers', cfg(K(*CONTAINERS), 'small', 'basic', 3, 5, 2, 3, R(1, 2, 3))),
-        ('leaves', cfg(K(*CONTAINERS), 'full', 'basic', 3, 4, 2, 3, R(1, 2, 3, 4, 5, 6, 7))),
-        ('coalesce', cfg(K('coalesce', 'tuple', 'list'), 'full', 'full', 2, 3, 2, 2, R(1, 2, 3))),
-        ('calls', cfg(K('call', 'invoke', 'tuple', 'dict', 'coalesce'), 'arg', 'basic', 3, 6, 2, 2, R(1, 3))),
-        ('modes', cfg(K('ref', 'fill', 'auto', 'dict', 'list', 'tuple', 'pipe', 'coalesce', 'call'), 'small', 'basic', 3, 5, 2, 2, R(1, 2, 3))),
-    ],
-}
-# wrong mechanism variants: TLC must report a law violated on each
-MUTANTS = [('tuple_skip_breaks', 'Laws'), ('coalesce_eager', 'Laws'), ('dict_stop_skips', 'Laws'),
-           ('invoke_first', 'Laws')]
-MUTANT_CFG = {
-    'tuple_skip_breaks': cfg(K('tuple', 'dict'), 'small', 'basic', 2, 3, 2, 2, R(1)),
-    'coalesce_eager': cfg(K('coalesce'), 'small', 'basic', 2, 3, 2, 2, R(1)),
-    'dict_stop_skips': cfg(K('dict'), 'small', 'basic', 2, 3, 2, 2, R(1)),
-    'invoke_first': cfg(K('invoke'), 'arg', 'basic', 2, 5, 2, 2, R(1)),
-}
-
-
-def run_config(check, label, consts):
+def map_cases(families, timeout=7200):
+    """TLC with -dump on the given universes, then replay of every dumped case in parallel (like
+    vlib.map_states; the target heap printed by the specification is installed before forking)"""
     global TARGET_HEAP
-    # the target family is defined once, in the specification; ask TLC for it
-    if TARGET_HEAP is None:
-        probe = vlib.run_tlc('MC_C03', cfg='MC_C03_base', workers=1,
-                             constants=cfg(K(), 'small', 'basic', 1, 0, 0, 0, R(1)))
-        vlib.tlc_must_pass(probe, 'MC_C03 target heap probe')
-        TARGET_HEAP = [j for j in probe['json'] if 'targetheap' in j][0]['targetheap']
-    res, results = vlib.map_states('MC_C03', worker, cfg='MC_C03_base', constants=consts)
-    check.add_tlc(res, 'MC_C03[%s] %s' % (label, {k: v for k, v in consts.items()}))
-    tot = dict(cases=0, nontrivial=0, ok=0, skipped={}, outcomes={})
+    import multiprocessing as mp
+    import os
+    import shutil
+    import tempfile
+    scratch = tempfile.mkdtemp(prefix='glomverif_c03_')
+    try:
+        path = os.path.join(scratch, 'states')
+        res = vlib.run_tlc('MC_C03', cfg='MC_C03_base', timeout=timeout, heap='8g', extra=('-dump', path),
+                           constants=dict(Families=tla_set(families), Mutant='"none"'))
+        vlib.tlc_must_pass(res, 'MC_C03 %s' % (families,))
+        TARGET_HEAP = [j for j in res['json'] if 'targetheap' in j][0]['targetheap']
+        vlib._WORKER = worker
+        with mp.get_context('fork').Pool(vlib.NCPU) as pool:
+            results = list(pool.imap_unordered(vlib._chunk_worker, vlib._dump_chunks(path + '.dump')))
+        return res, results
+    finally:
+        vlib._WORKER = None
+        shutil.rmtree(scratch, ignore_errors=True)
+
+
+def run_families(check, families):
+    res, results = map_cases(families)
+    check.add_tlc(res, 'MC_C03 %s' % ' '.join(families))
+    per = {}
     for r in results:
-        for k in ('cases', 'nontrivial', 'ok'):
-            tot[k] += r[k]
-        for d in ('skipped', 'outcomes'):
-            for k, v in r[d].items():
-                tot[d][k] = tot[d].get(k, 0) + v
+        for fam, t in r['fams'].items():
+            tot = per.setdefault(fam, dict(cases=0, nontrivial=0, ok=0, skipped={}, outcomes={}))
+            for k in ('cases', 'nontrivial', 'ok'):
+                tot[k] += t[k]
+            for d in ('skipped', 'outcomes'):
+                for k, v in t[d].items():
+                    tot[d][k] = tot[d].get(k, 0) + v
         for s in r['samples']:
             check.sample(s, limit=3)
         for b in r['bad']:
             check.violation(b['case'], b['why'], matcher=match_finding)
-    check.cov['evaluations'] += tot['cases']
-    check.cov['distinct_nontrivial'] += tot['nontrivial']
-    check.validated(tot['ok'])
-    check.extra.setdefault('configs', {})[label] = tot
-    if tot['cases'] == 0:
-        raise vlib.MachineryError('configuration %s produced no cases' % label)
-    return tot
+    for fam in families:
+        tot = per.get(fam)
+        if not tot or tot['cases'] == 0:
+            raise vlib.MachineryError('universe %s produced no cases' % fam)
+        check.cov['evaluations'] += tot['cases']
+        check.cov['distinct_nontrivial'] += tot['nontrivial']
+        check.validated(tot['ok'])
+    check.extra['universes'] = dict(sorted(per.items()))
+    return per
 
 
 def main(tier, seed):
     check = vlib.Check(PROP, tier, seed)
-    for label, consts in CONFIGS[tier]:
-        run_config(check, label, consts)
-    rows = record(check, {'quick': 6000, 'thorough': 60000}[tier], seed)
+    t0 = time.time()
+    run_families(check, FAMILIES[tier])
+    check.extra['wall_spec_to_code_s'] = round(time.time() - t0, 1)
+    t0 = time.time()
+    rows = record(check, {'quick': 6000, 'thorough': 40000}[tier], seed)
+    check.extra['wall_code_to_spec_s'] = round(time.time() - t0, 1)
     if not corrupted_row_is_rejected(check, rows):
         raise vlib.MachineryError('a corrupted recorded row was not rejected by Trace_C03')
     check.extra['corrupted_row_rejected'] = True
     if tier == 'thorough':
         mut = {}
-        for name, law in MUTANTS:
-            res = vlib.run_tlc('MC_C03', cfg='MC_C03_base', constants=dict(MUTANT_CFG[name], Mutant='"%s"' % name))
+        for name, fam in MUTANTS:
+            res = vlib.run_tlc('MC_C03', cfg='MC_C03_base',
+                               constants=dict(Families=tla_set([fam]), Mutant='"%s"' % name))
             mut[name] = res['violated']
-            if res['violated'] != law:
-                raise vlib.MachineryError('spec mutant %s: expected TLC to report %s violated, got %r'
-                                          % (name, law, res['violated']))
+            if res['violated'] != 'Laws':
+                raise vlib.MachineryError('spec mutant %s: expected TLC to report Laws violated on %s, got %r'
+                                          % (name, fam, res['violated']))
         check.extra['spec_mutants_detected_by_tlc'] = mut
     check.assumptions += [
         'user callables come from a fixed library (ident, inc, size, is_none, is_int, ret_SKIP, ret_STOP, raise_*, '
